@@ -240,9 +240,17 @@ def resumed_budgets(F, S, R):
         R.bad("prov/complete-budget/anchor-lost", "the call that resumes the suspended group (verify_group_with_chunk(.., &snap.state)) not found in complete()", [cp.where()])
     else:
         srcs = set(cp.operand_sources(vg[0].args[2]))
-        reads_total = any(re.search(r"FullSuspendedState\.total_cycles$", x) for b in bodies for x in _all_field_reads(b))
+        # the value read from FullSuspendedState.total_cycles (directly, or inside a closure handed to map_or / map / and_then whose result is
+        # among the sources of the budget) must flow into the budget
+        feeds = any(re.search(r"FullSuspendedState\.total_cycles$", x) for x in srcs)
+        for c2 in cp.calls:
+            if ("call:" + c2.callee) not in srcs and not (c2.res and ("call:" + c2.res) in srcs):
+                continue
+            for cl in S.closure_args(c2):
+                if any(re.search(r"FullSuspendedState\.total_cycles$", x) for x in _all_field_reads(cl)):
+                    feeds = True
         subs = [c for b in bodies for c in b.calls if c.callee.endswith("checked_sub") or c.callee.endswith("saturating_sub")]
-        if reads_total and len(subs) >= 2 and K.src_match(srcs, [r"call:.*checked_sub$|call:.*and_then"]):
+        if feeds and len(subs) >= 2 and K.src_match(srcs, [r"call:.*checked_sub$|call:.*and_then"]):
             R.ok("prov/complete-budget", "the suspended group is resumed with max_cycles minus the finished groups' cycles minus the cycles it consumed before the suspension", [vg[0].where()])
         else:
             R.bad("prov/complete-budget", "complete() resumes the suspended group without deducting the cycles it consumed before the suspension (FullSuspendedState.total_cycles): "
